@@ -287,6 +287,14 @@ class MixinProbeKernel(ProbeKernel, TransitionMixin, TuningMixin):
     TransitionMixin / TuningMixin, so the real lax.cond dispatch on epoch type is observed."""
 
     mixin = True
+    # a different error book than ProbeKernel's: messages must be attributed to the right kernel
+    error_book: ClassVar[dict[int, str]] = {
+        0: "no errors",
+        1: "mixin probe: first error",
+        2: "mixin probe: second error",
+        7: "mixin probe: seventh error",
+        90: "mixin probe: ninetieth error",
+    }
 
     def transition(self, prng_key, kernel_state, model_state, epoch):
         return TransitionMixin.transition(self, prng_key, kernel_state, model_state, epoch)
